@@ -231,7 +231,7 @@ def build(yp, t, vmap):
     return yp.functor(t[1], [build(yp, a, vmap) for a in t[2]])
 
 
-OBS_DEPTH_CAP = 200
+OBS_DEPTH_CAP = 2500        # deeper than any finite term the plans can build (a few 150-deep terms stacked); a cyclic term exceeds any cap
 
 
 def observe(x, ids, depth=0):
